@@ -85,6 +85,75 @@ def main(argv=None):
         shutil.rmtree(scratch, ignore_errors=True)
 
 
+def selftest_phase(pid, functions, known, scratch, timeout_ms):
+    """Apply each deliberate edit of selftest/mutations.py that targets this property to a scratch copy of the package and re-verify the
+    functions it touches: a property-breaking edit must fail some obligation, a harmless one must fail none (proof only, no stand-in)."""
+    from pyvc import front
+    from pyvc.runner import run_cone
+    from selftest.mutations import M
+
+    out = dict(what="selftest/mutations.py entries tagged %s, applied one at a time to a scratch copy; only the functions whose AST changed are re-verified" % pid, results=[])
+    orig_repo = front.REPO
+
+    def prints(repo):
+        front.REPO = repo
+        front.reset_cache()
+        fp = {}
+        for q in functions:
+            if q.startswith("lemma:"):
+                continue
+            try:
+                fp[q] = front.fingerprint(front.find_function(getattr(S_REGISTRY().get(q), "source", None) or q)[1])
+            except Exception:
+                fp[q] = None
+        return fp
+
+    base = prints(orig_repo)
+    try:
+        for mu in M:
+            if pid not in mu["props"]:
+                continue
+            d = os.path.join(scratch, "mut-" + mu["id"])
+            shutil.copytree(os.path.join(orig_repo, "tinyflux"), os.path.join(d, "tinyflux"))
+            pth = os.path.join(d, mu["file"])
+            src = open(pth).read()
+            if src.count(mu["old"]) != 1:
+                out["results"].append((mu["id"], "PATTERN-NOT-FOUND"))
+                shutil.rmtree(d, ignore_errors=True)
+                continue
+            with open(pth, "w") as f:
+                f.write(src.replace(mu["old"], mu["new"]))
+            now = prints(d)
+            changed = [q for q in base if now.get(q) != base[q]]
+            if not changed:  # a class constant or a decorator: re-verify everything of that file
+                mod = mu["file"][:-3].replace("/", ".")
+                changed = [q for q in base if q.startswith(mod + ".")]
+            merged = run_cone(changed, timeout_ms=min(timeout_ms, 20000), seed=0, shards={q: 8 for q in changed}, want_canary=False)
+            bad = 0
+            for q, m_ in merged.items():
+                if m_.get("error") or m_.get("unsupported"):
+                    bad += 0 if mu["harmless"] else 1
+                    continue
+                bad += sum(1 for r in m_["results"] if r["result"] != "unsat" and match_known(known, r["name"]) is None)
+            verdict = ("OK-stays-green" if bad == 0 else "FALSE-ALARM") if mu["harmless"] else ("OK-refused" if bad else "MISSED")
+            out["results"].append((mu["id"], verdict))
+            shutil.rmtree(d, ignore_errors=True)
+    finally:
+        front.REPO = orig_repo
+        front.reset_cache()
+    out["mutants"] = len(out["results"])
+    out["refused_or_green_as_expected"] = sum(1 for _, v in out["results"] if v.startswith("OK"))
+    return out
+
+
+def S_REGISTRY():
+    from pyvc.runner import _load_contracts
+    from pyvc import spec as S
+
+    _load_contracts()
+    return S.REGISTRY
+
+
 def do_replay(prop, path, scratch):
     rep = load_json(path, None)
     if rep is None:
@@ -253,6 +322,14 @@ def do_check(prop, pid, tier, seed, a, scratch, t0):
         print("KNOWN-FINDING: property=%s %s" % (pid, kf["what"]))
     # a known finding whose obligations no longer fail is simply not printed.
 
+    # ---- thorough tier: the mutation self-test of this property's cone (is a broken body still refused?)
+    selftest = None
+    if tier == "thorough" and not errors and not vio_lines and not os.environ.get("PYVC_REPO"):
+        selftest = selftest_phase(pid, functions, known, scratch, timeout_ms)
+        for mid, verdict in selftest["results"]:
+            if verdict in ("MISSED", "FALSE-ALARM"):
+                errors.append("self-test: mutant %s of this cone: %s" % (mid, verdict))
+
     # ---- evidence
     wall = time.time() - t0
     by_backend = {}
@@ -285,6 +362,8 @@ def do_check(prop, pid, tier, seed, a, scratch, t0):
         samples=[dict(obligation=r["name"], result=r["result"], backend=r["backend"], seconds=r["seconds"]) for r in (all_results[:3] + all_results[-2:])],
         explanation=explain(level, all_results, discharged, n_known, unsupported, standin),
     )
+    if selftest is not None:
+        cov["mutation_selftest"] = selftest
     if standin and not standin.get("error"):
         cov["bounded"] = dict(what=standin.get("rule"), bound=standin.get("bound"), evaluations=standin.get("evaluations"), distinct_nontrivial=standin.get("distinct_nontrivial"), failures=len(standin.get("failures", [])), samples=standin.get("samples", [])[:3], note="bounded stand-in: never counted in `discharged`")
         cov["evaluations"] = max(1, int(standin.get("evaluations", 0)))
